@@ -663,3 +663,31 @@ for _t in INTBITS:
     MODELS['core::convert::num::ptr_try_from_impls::<impl std::convert::TryFrom for %s>::try_from' % _t] = _try_from
 MODELS['<std::vec::IntoIter as std::iter::ExactSizeIterator>::len'] = None
 del MODELS['<std::vec::IntoIter as std::iter::ExactSizeIterator>::len']
+
+
+def _more_fraction_ops():
+    for ty, bits in UBITS.items():
+        P = CS + ty + '::'
+        def mk(ty=ty, bits=bits):
+            def cdiv(it, a, c, ceil=False, checked=True):
+                num, den = frac_parts(a[1])
+                x = u(a[0])
+                if it.ctx.branch(num == 0, 'div0'):
+                    if checked: return ERR(Enum('cosmwasm_std::CheckedMultiplyFractionError', 'DivideByZero', [err_divzero()]))
+                    raise PanicPath('Division failed - denominator must not be zero')
+                q, rm = it.ctx.divmod(x * den, num)
+                r = q + (zite(rm == 0, 0, 1) if is_sym(rm) else (0 if rm == 0 else 1)) if ceil else q
+                if it.ctx.branch(in_range(r, bits), 'checked'): return OK(mkU(ty, r)) if checked else mkU(ty, r)
+                if checked: return ERR(Enum('cosmwasm_std::CheckedMultiplyFractionError', 'ConversionOverflow', [err_conv()]))
+                raise PanicPath('ConversionOverflowError (div_floor)')
+            MODELS[P + 'checked_div_floor'] = lambda it, a, c: cdiv(it, a, c)
+            MODELS[P + 'checked_div_ceil'] = lambda it, a, c: cdiv(it, a, c, ceil=True)
+            MODELS[P + 'div_floor'] = lambda it, a, c: cdiv(it, a, c, checked=False)
+            MODELS[P + 'div_ceil'] = lambda it, a, c: cdiv(it, a, c, ceil=True, checked=False)
+            def mul_ceil(it, a, c):
+                r = MODELS[P + 'checked_mul_ceil'](it, a, c)
+                if r.variant == 'Err': raise PanicPath('ConversionOverflowError (mul_ceil)')
+                return r.fields[0]
+            MODELS[P + 'mul_ceil'] = mul_ceil
+        mk()
+_more_fraction_ops()
